@@ -13,7 +13,7 @@ import shutil
 import time
 import warnings
 from collections import defaultdict
-from collections.abc import Iterable
+from collections.abc import Iterable, Mapping
 from contextlib import contextmanager
 from copy import deepcopy
 from datetime import timedelta
@@ -1309,6 +1309,8 @@ class Project:
             try:
                 # First, check if we can look up the state point.
                 statepoint = self._get_statepoint(job_id, validate=False)
+                if not isinstance(statepoint, Mapping):
+                    raise KeyError(job_id)  # valid JSON, but not a state point
                 # Check if state point and id correspond.
                 correct_id = calc_id(statepoint)
                 if correct_id != job_id:
@@ -1331,7 +1333,7 @@ class Project:
                         logger.info("Moved job to correct workspace.")
 
                 job = self.open_job(statepoint)
-            except KeyError:
+            except (KeyError, JobsCorruptedError):
                 logger.critical(
                     f"Unable to look up state point for job with id '{job_id}'."
                 )
